@@ -1125,7 +1125,13 @@ func (c *Compiler) writeCountBytes(node *node, v string, depth int) error {
 		}
 	case typeBasic:
 		if node.typu == "string" {
+			if node.ptr {
+				c.wl("if ", v, "!=nil{")
+			}
 			c.wl("c+=len(", c.fmtVnb(node, v, depth), ")")
+			if node.ptr {
+				c.wl("}")
+			}
 		}
 	}
 	return nil
@@ -1209,7 +1215,16 @@ func (c *Compiler) writeCopy(node *node, l, r string, depth int) error {
 		}
 	case typeBasic:
 		if node.typu == "string" {
+			if node.ptr {
+				c.wl("if ", r, "!=nil{")
+				c.wl("if ", l, "==nil{")
+				c.wl(l, "=new(", strings.Trim(node.typn, "*"), ")")
+				c.wl("}")
+			}
 			c.wl("buf,", c.fmtVnb(node, l, depth), "=inspector.BufferizeString(buf,", c.fmtVnb(node, r, depth), ")")
+			if node.ptr {
+				c.wl("}")
+			}
 		} else {
 			c.wl(l, "=", r)
 		}
